@@ -80,8 +80,16 @@ func applyPatch(doc document.Document, p patch.Patch) (document.Document, error)
 	return nil, fmt.Errorf("action '%s' is not supported", action)
 }
 
-func applyJSON(doc document.Document, entry interface{}) (document.Document, error) {
+func applyJSON(doc document.Document, entry interface{}) (result document.Document, err error) {
 	logger.Debug("Applying JSON patch", logfields.WithPatch(entry))
+
+	// the JSON patch library panics on some malformed operations (e.g. negative array indices, null values in
+	// 'test'); a patch that cannot be applied must produce an error, not take the process down
+	defer func() {
+		if r := recover(); r != nil {
+			result, err = nil, fmt.Errorf("%s: patch cannot be applied: %v", patch.JSONPatch, r)
+		}
+	}()
 
 	bytes, err := json.Marshal(entry)
 	if err != nil {
